@@ -145,6 +145,16 @@ jobs:
 on: push
 jobs: {zz: {needs: [b], runs-on: ubuntu-latest, steps: [{run: echo}]}, b: {needs: [zz], runs-on: ubuntu-latest, steps: [{run: echo}]},
  c: {needs: [d], runs-on: ubuntu-latest, steps: [{run: echo}]}, d: {needs: [c], runs-on: ubuntu-latest, steps: [{run: echo}]}}
+`, `
+on: push
+jobs:
+  a:
+    runs-on: ubuntu-latest
+    steps:
+      - run: |
+          echo ${{ fromJSON('{"A": 1, "a": {"b": 1}}').a.b }}
+      - run: |
+          echo ${{ fromJSON('{"x": {"B": "s", "b": {"c": 1}}}').x.b.c }}
 `)
 }
 
@@ -252,4 +262,47 @@ func HarnessC02Order() {
 	verifCheck(same || l01 || l10, "Less-leaves-distinct-positions-unordered")
 	verifCheck(!(l01 && l12) || l02, "Less-not-transitive")
 	verifCheck(l01 == pq, "Less-and-IsBefore-disagree")
+}
+
+// HarnessC02JobOrder: two jobs that share a missing local reusable workflow and
+// a broken local action (the caches report such an error to the first caller
+// only): the diagnostics are the same whatever order the jobs map yields.
+func HarnessC02JobOrder() {
+	src := `
+on: push
+jobs:
+  zz:
+    uses: ./.github/workflows/missing.yml
+  aa:
+    uses: ./.github/workflows/missing.yml
+  mm:
+    runs-on: ubuntu-latest
+    steps:
+      - uses: ./broken
+  bb:
+    runs-on: ubuntu-latest
+    steps:
+      - uses: ./broken
+`
+	if verifIsNative() {
+		verifC02NativeJobOrder(src)
+		return
+	}
+	verifC14ActionYAML = "name: act\nruns:\n  using: node20\n  main: index.js\n" // no description: metadata diagnostic
+	verifOverride("os.ReadFile", verifC14ReadAction)
+	verifOverride("os.Stat", verifC14Stat)
+	run := func() []*Error {
+		proj := &Project{root: "/r"}
+		la := NewLocalActionsCache(proj, nil)
+		lw := NewLocalReusableWorkflowCache(proj, "/r", nil)
+		rules := []Rule{NewRuleAction(la), NewRuleWorkflowCall("/r/.github/workflows/w.yml", lw), NewRuleExpression(la, lw)}
+		return verifLintNode(verifParseYAML(src), rules)
+	}
+	e0 := run()
+	verifCheck(len(e0) >= 2, "shared-errors-are-reported")
+	verifMapOrder(true)
+	e1 := run()
+	verifMapOrder(false)
+	verifReach("compared")
+	verifCheckf(verifSameSeq(e0, e1), "output-depends-on-map-iteration-order", verifErrTextConc(e1))
 }
